@@ -172,15 +172,22 @@ pub fn display_ident(f: &mut std::fmt::Formatter, ident: &Ident) -> Result<(), s
 }
 
 pub fn display_ident_part(f: &mut std::fmt::Formatter, s: &str) -> Result<(), std::fmt::Error> {
+    // words the lexer turns into keywords or literals when they stand bare
+    const RESERVED: &[&str] = &[
+        "let", "into", "case", "prql", "type", "module", "internal", "func", "import", "enum", "true",
+        "false", "null",
+    ];
     fn forbidden_start(c: char) -> bool {
-        !(c.is_ascii_alphabetic() || matches!(c, '_' | '$'))
+        // `$` starts a parameter token, not an identifier
+        !(c.is_ascii_alphabetic() || c == '_')
     }
     fn forbidden_subsequent(c: char) -> bool {
         !(c.is_ascii_alphabetic() || c.is_ascii_digit() || c == '_')
     }
     let needs_escape = s.is_empty()
         || s.starts_with(forbidden_start)
-        || (s.len() > 1 && s.chars().skip(1).any(forbidden_subsequent));
+        || (s.len() > 1 && s.chars().skip(1).any(forbidden_subsequent))
+        || RESERVED.contains(&s);
 
     if needs_escape {
         write!(f, "`{s}`")
